@@ -1,7 +1,7 @@
 #!/usr/bin/env python3
 """Seeded changes (DESIGN §8).
 
-  seed_eval.py confirm <prop> <i> [srcdir]
+  seed_eval.py confirm <prop> <i> [srcdir [store-as-index]]
       confirms a sub-agent's change in a scratch worktree of /repo (the unedited suite passes with
       it, the demonstration fails with it and passes without it) and, only then, stores it as
       /verif/seeded/<prop>_m<i>/{patch.diff, demo_test.go, meta.json}. srcdir defaults to
@@ -22,7 +22,7 @@ def sh(cmd, cwd=None, timeout=3600):
     return r.returncode, (r.stdout + r.stderr)
 
 
-def confirm(prop, i, src=None):
+def confirm(prop, i, src=None, as_i=None):
     src = src or f'/tmp/seed/out_{prop}'
     diff, demo, meta = f'{src}/m{i}.diff', f'{src}/m{i}_demo_test.go', f'{src}/m{i}.json'
     m = json.load(open(meta))
@@ -56,12 +56,13 @@ def confirm(prop, i, src=None):
     ok = all(res.get(k) for k in ['demo_passes_without', 'applies', 'touches_no_test_file', 'suite_passes_with', 'demo_fails_with'])
     res['confirmed'] = ok
     if ok:
-        d = f'{SEEDED}/{prop}_m{i}'
+        as_i = as_i or i
+        d = f'{SEEDED}/{prop}_m{as_i}'
         os.makedirs(d, exist_ok=True)
         shutil.copy(diff, f'{d}/patch.diff')
         shutil.copy(demo, f'{d}/demo_test.go')
         out = {
-            'id': f'{prop}_m{i}', 'breaks_property': prop,
+            'id': f'{prop}_m{as_i}', 'breaks_property': prop,
             'summary': m.get('summary'), 'needs_to_manifest': m.get('needs'), 'files': m.get('files'),
             'demo': {'file': 'demo_test.go', 'copy_to': f'{pkgdir}/zz_seed_demo_test.go', 'run': f'go test -vet=off -count=1 -run "{runre}" ./{pkgdir}'},
             'confirmed_in_scratch_worktree': {
@@ -103,6 +104,6 @@ def run(sid, checks):
 
 if __name__ == '__main__':
     if sys.argv[1] == 'confirm':
-        sys.exit(0 if confirm(*sys.argv[2:5]) else 1)
+        sys.exit(0 if confirm(*sys.argv[2:6]) else 1)
     elif sys.argv[1] == 'run':
         run(sys.argv[2], sys.argv[3:])
